@@ -115,6 +115,7 @@ type SessOpts struct {
 	WaitTimeout float64
 	Stdin       string
 	AutoCommit  bool
+	Quiet       bool
 }
 
 func NewSess(o SessOpts) (*Sess, error) {
@@ -145,7 +146,7 @@ func NewSess(o SessOpts) (*Sess, error) {
 	_ = tx.SetFlag(option.CPUFlag, int64(cpu))
 	_ = tx.SetFlag(option.StrictEqualFlag, o.StrictEqual)
 	_ = tx.SetFlag(option.AnsiQuotesFlag, o.AnsiQuotes)
-	_ = tx.SetFlag(option.QuietFlag, false)
+	_ = tx.SetFlag(option.QuietFlag, o.Quiet)
 	if o.WaitTimeout > 0 {
 		_ = tx.SetFlag(option.WaitTimeoutFlag, o.WaitTimeout)
 	}
